@@ -197,7 +197,8 @@ Proof. apply (P_C17.butter_args_spec CArray [Some (1 / 2); Some 10] (1 / 100)). 
     NOT covered by this tie (left to the correspondence): SciPy's butter / filtfilt themselves, binary64 rounding, np.mean of an
     empty slice (nan + warning; 0/0 in the model), int(np.ceil(np.log2(n))) read as Z.log2_up n (exact for 1 <= n < 2^48),
     the object-level steps (the values / dt / npts properties and reset_values are checked structurally to be the plain
-    accessors; AccSignal's overrides and clear_cache are not translated), remove_poly (np.polyfit loop: not translated). *)
+    accessors; AccSignal's overrides and clear_cache are not translated).  remove_poly has its own tie at the end of this
+    file (gen/Gen_rmpoly.v). *)
 From Coq Require Import ZArith String List.
 From EQ Require Import gen.Gen_c17 proofs.P_gen_c17.
 
@@ -317,3 +318,44 @@ Example C17_nonvacuous_source :
   gen_butter_pass (fun (o : Z) (bt : string) (wn v : list R) => v) PTuple [Some (1 / 2); Some 10] None (Some "mid"%string) None None
     (1 / 100) [1; 2; 3] = PyOk [1; 2; 3].
 Proof. exact P_gen_c17.source_nonvacuous. Qed.
+
+(** ** Source-text tie for polynomial detrending (translator/py2coq_rmpoly.py -> gen/Gen_rmpoly.v, proofs in P_gen_rmpoly)
+
+    Every run re-translates eqsig/fns/generic.py: remove_poly and eqsig/single.py: Signal.remove_poly.  np.polyfit stays
+    the oracle: the generated definitions apply their parameter [PF] to the operands of the source call, in source order
+    ([PF x values poly_fit]); [pf_of polyfit] is the model's oracle in that argument order.  Everything around the call is
+    translated and proved to be the model: the grid np.linspace(0, 1.0, len(values)) (resp. self.npts points), the start
+    value [0 * x], the loop over range(len(cofs)), the power [poly_fit - co], the coefficient [cofs[co]], the product and
+    the in-place accumulation, and the result [values - y_cor] (the function returns it; the method hands it to
+    self.reset_values, a = self.values; dt is not touched).  A changed operand / literal / index / sign there changes the
+    generated term and breaks one of these theorems; a renamed temporary or loop variable gives the same text.
+    The oracle must return k + 1 coefficients: that is the first half of its contract [polyfit_ok] (with more than k + 1
+    coefficients the source raises x to a negative power, which [remove_poly_with] does not follow).
+    NOT covered (trusted reading / correspondence): np.polyfit itself, np.linspace read as [np_linspace] of lib/PySeq.v
+    (start + i * step; NumPy's own rounding and its exact last point are not modelled), [x ** int] as repeated
+    multiplication, binary64 rounding. *)
+From EQ Require Import lib.PySeq gen.Gen_rmpoly proofs.P_gen_rmpoly.
+
+Theorem C17_remove_poly_is_source : forall polyfit (k : nat) (y : list R),
+  length (polyfit k (linspace01 (length y)) y) = S k ->
+  gen_remove_poly (pf_of polyfit) y (Z.of_nat k) = remove_poly polyfit k y.
+Proof. exact P_gen_rmpoly.gen_remove_poly_eq. Qed.
+Theorem C17_signal_remove_poly_is_source : forall polyfit (k : nat) (s : @signal R),
+  length (polyfit k (linspace01 (length (s_vals s))) (s_vals s)) = S k ->
+  gen_sig_remove_poly (pf_of polyfit) (Z.of_nat k) (s_vals s) = s_vals (remove_poly_sig polyfit k s).
+Proof. exact P_gen_rmpoly.gen_sig_remove_poly_eq. Qed.
+(** under the contract of the oracle used by the detrending theorems above, unconditionally *)
+Theorem C17_remove_poly_is_source_ok : forall polyfit, polyfit_ok polyfit -> forall (k : nat) (y : list R),
+  gen_remove_poly (pf_of polyfit) y (Z.of_nat k) = remove_poly polyfit k y.
+Proof. exact P_gen_rmpoly.gen_remove_poly_ok. Qed.
+Theorem C17_signal_remove_poly_is_source_ok : forall polyfit, polyfit_ok polyfit -> forall (k : nat) (s : @signal R),
+  gen_sig_remove_poly (pf_of polyfit) (Z.of_nat k) (s_vals s) = s_vals (remove_poly_sig polyfit k s) /\
+  s_dt (remove_poly_sig polyfit k s) = s_dt s.
+Proof. exact P_gen_rmpoly.gen_sig_remove_poly_ok. Qed.
+(** what the source hands to np.polyfit: the grid of the model, the record, the degree *)
+Theorem C17_remove_poly_oracle_args_are_source : forall (PF : list R -> list R -> Z -> list R) (y : list R) (k : Z),
+  gen_remove_poly PF y k = gen_remove_poly (fun _ _ _ => PF (linspace01 (length y)) y k) y k.
+Proof. exact P_gen_rmpoly.gen_remove_poly_oracle_args. Qed.
+Theorem C17_remove_poly_defaults_are_source :
+  gen_remove_poly_default_poly_fit = 0%Z /\ gen_sig_remove_poly_default_poly_fit = 0%Z.
+Proof. exact P_gen_rmpoly.gen_rmpoly_defaults. Qed.
